@@ -27,3 +27,4 @@ pub fn unescaped_quoted_string(input: &str) -> Option<(String, String)> {
 pub mod c20;
 pub mod c21;
 pub mod c23;
+pub mod c27;
